@@ -71,6 +71,8 @@ async def open_ws_server_transport(spec: str) -> Transport:
                 f'from {connection.remote_address}'
             )
             self.connection = connection
+            # A new client starts a new stream, whatever the previous one left behind
+            self.source.parser.reset()
             # pylint: disable=no-member
             try:
                 async for packet in connection:
